@@ -33,6 +33,28 @@ BIN_OPS = {"Add": "+", "Minus": "-", "Mul": "*", "Div": "/", "Mod": "%", "Exp": 
 TERN_OPS = {"SetBit": "setbit", "SetByte": "setbyte", "Divw": "divw"}
 
 
+# written from the TEAL specification's named constants (not read from pyteal)
+ENUMS = {"OnComplete": {"NoOp": 0, "OptIn": 1, "CloseOut": 2, "ClearState": 3, "UpdateApplication": 4,
+                        "DeleteApplication": 5},
+         "TxnType": {"Unknown": 0, "Payment": 1, "KeyRegistration": 2, "AssetConfig": 3, "AssetTransfer": 4,
+                     "AssetFreeze": 5, "ApplicationCall": 6}}
+
+
+def decode_based(base: str, text: str) -> bytes:
+    """reference decoding of base16/base32/base64 literals (RFC 4648; padding optional for base32)"""
+    import base64
+    if base == "base16":
+        t = text[2:] if text.startswith("0x") else text
+        return bytes.fromhex(t)
+    if base == "base32":
+        t = text.rstrip("=")
+        t += "=" * ((8 - len(t) % 8) % 8)
+        return base64.b32decode(t)
+    if base == "base64":
+        return base64.b64decode(text)
+    raise HarnessError("unknown base %r" % base)
+
+
 class _Break(Exception):
     pass
 
@@ -159,6 +181,36 @@ class RefEval:
 
     def ev_Bytes(self, e, fr):
         return Bs(list(e[1]))
+
+    def ev_BytesStr(self, e, fr):
+        return Bs(list(e[1].encode("utf-8")))
+
+    def ev_BytesBase(self, e, fr):
+        return Bs(list(decode_based(e[1], e[2])))
+
+    def ev_Addr(self, e, fr):
+        from algosdk import encoding
+        return Bs(list(encoding.decode_address(e[1])))
+
+    def ev_MethodSig(self, e, fr):
+        from Cryptodome.Hash import SHA512
+        h = SHA512.new(truncate="256")
+        h.update(e[1].encode("utf-8"))
+        return Bs(list(h.digest()[:4]))
+
+    def ev_EnumInt(self, e, fr):
+        return U(ENUMS[e[1]][e[2]])
+
+    def ev_TmplBytes(self, e, fr):
+        if self.cfg.concrete is not None:
+            return Bs(list(self.cfg.concrete.get(e[1], b"")))
+        from ..avm.values import BytesSort
+        return Ob(z3.Const(e[1], BytesSort))
+
+    def ev_TmplAddr(self, e, fr):
+        if self.cfg.concrete is not None:
+            return Bs([int(self.cfg.concrete.get("%s#%d" % (e[1], i), 0)) for i in range(32)])
+        return Bs([z3.BitVec("%s#%d" % (e[1], i), 8) for i in range(32)])
 
     def ev_TmplInt(self, e, fr):
         if self.cfg.concrete is not None:
